@@ -102,10 +102,13 @@ class PC(object):
 class LoopSpec(object):
     """sidecar loop contract. All callables take (st, ctx).
        inv: list of (name, fn) ; init: ghost initialisation before the loop ; step: ghost update at the
-       end of the body ; ghost: names of ghost variables (havocked with the loop state)"""
+       end of the body ; ghost: names of ghost variables (havocked with the loop state)
+       cumulative: clause j is proved assuming clauses 0..j-1 of the SAME state (sequential conjunction: A, then
+       A => B, gives A and B), which lets a later clause reuse what an earlier one established about the new state"""
 
-    def __init__(self, inv, init=None, step=None, ghost=(), nf_arrays=()):
+    def __init__(self, inv, init=None, step=None, ghost=(), nf_arrays=(), cumulative=False):
         self.inv, self.init, self.step, self.ghost, self.nf_arrays = inv, init, step, tuple(ghost), tuple(nf_arrays)
+        self.cumulative = cumulative
 
 
 def _assigned(stmts):
@@ -1586,8 +1589,12 @@ class Engine(object):
         lname = "%s.loop%d" % key
         if spec.init is not None:
             spec.init(st, ctx)
+        pcx = pc
         for nm, inv in spec.inv:
-            self.oblige("%s.entry.%s" % (lname, nm), pc, self.call_spec(inv, st, ctx, lname), kind='loop')
+            f = self.call_spec(inv, st, ctx, lname)
+            self.oblige("%s.entry.%s" % (lname, nm), pcx, f, kind='loop')
+            if spec.cumulative and f is not True:
+                pcx = pcx.plus(f)
         mod = _assigned(body) | set(spec.ghost)
         if counter:
             mod.add(counter)
@@ -1615,8 +1622,12 @@ class Engine(object):
                 st3.vars[counter] = arith('+', st3.vars[counter], 1)
             if spec.step is not None:
                 spec.step(st3, ctx)
+            pcx = pc3
             for nm, inv in spec.inv:
-                self.oblige("%s.preserve.%s" % (lname, nm), pc3, self.call_spec(inv, st3, ctx, lname), kind='loop')
+                f = self.call_spec(inv, st3, ctx, lname)
+                self.oblige("%s.preserve.%s" % (lname, nm), pcx, f, kind='loop')
+                if spec.cumulative and f is not True:
+                    pcx = pcx.plus(f)
             self.obls.append(Obl("%s.canary" % lname, pc3.hyp(), z3.BoolVal(False), 'canary'))
         out.append((st2, pc2.plus(bnot(g)), None))
         return out
